@@ -9,7 +9,7 @@ NACK_REASONS = [0, 50, 100, 150, 151, 255, 256, 65535, 65536, 2 ** 32 - 1, 2 ** 
 RESET_KINDS = ['reset', 'reset', 'timeout', 'abort', 'pipe', 'unreach']      # how a stream dies when it is not a clean EOF
 V2_VERDICTS = ['PASS', 'ALLOW_BYPASS', 'FAIL', 'SILENCE', 'TIMEOUT']
 V1_VERDICTS = ['PASS', 'ALLOW_BYPASS', 'TRUTHY_STR', 'FAIL', 'SILENCE', 'TIMEOUT', 'EMPTY']
-LP_HDRS = [(0x51, '0000000000000001'), (0x032c, '0100'), (0x0330, '07'), (0x0340, '01'), (0x0344, '0000000000000009'),
+LP_HDRS = [(0x10, 'aa'), (0x4f, ''), (0x51, '0000000000000001'), (0x032c, '0100'), (0x0330, '07'), (0x0340, '01'), (0x0344, '0000000000000009'),
            (0x0348, '0000000000000002'), (0x034c, ''), (0x0354, 'beef'), (0x0384, ''), (0x03a0, '00')]
 
 
@@ -141,6 +141,8 @@ def validator_spec(rng, fe, life_ms, accept_bias=0.7, late_bias=0.15):
     spec = {'verdict': verdict, 'latency_us': lat}
     if fe == 'v2' and rng.random() < 0.05:
         spec['raise'] = rng.choice(['timeout', 'cancel'])
+    elif fe == 'v1' and rng.random() < 0.04:
+        spec['raise'] = 'timeout'           # (the time-out of a certificate fetch inside the validator, not caught there)
     if rng.random() < 0.05:
         spec['falsy'] = True
     if rng.random() < 0.08:
@@ -162,6 +164,8 @@ def add_consumer_side(b, rng, fe, n_int, focus='c03', lp_prob=0.1, transparent=F
         else:
             name = rand_name(rng, alphabet)
         cbp = rng.random() < 0.4
+        if rng.random() < 0.03:
+            name, cbp = [], True            # "whatever there is": the root prefix with CanBePrefix
         life = rng.choice(LIFETIMES)
         if ints and rng.random() < 0.4:
             te = rng.choice(ints)['te'] + rng.choice([0, 0, 1, 2, 1000])
@@ -333,7 +337,7 @@ def add_noise(b, rng, ints, horizon):
             b.op(ts, 'cancel', id=rng.choice(ints)['id'])
         b.faults += 1
     elif x < 0.16:
-        b.op(rng.randint(1000, horizon), rng.choice(['eof', 'reset']), exc=rng.choice(RESET_KINDS))
+        b.op(rng.randint(1000, horizon), rng.choice(['eof', 'reset']), exc=rng.choice(RESET_KINDS), crash=rng.random() < 0.3)
         b.faults += 1
     if rng.random() < 0.05:
         b.op(rng.randint(1000, horizon), 'wall_jump', delta_ms=rng.choice([-5000, -50, -1, 1, 50, 5000]))
@@ -453,6 +457,8 @@ def add_producer_side(b, rng, fe, focus='c04', tokens=False, lp_prob=0.1, transp
                     spec['app_param'] = rng.choice([0, 5, 260])
                     if rng.random() < 0.12:
                         spec['no_sigvalue'] = True      # SignatureInfo without SignatureValue: still a signed Interest
+                if 'app_param' in spec and rng.random() < 0.08:
+                    spec['no_digest_comp'] = True       # parameters (and signature) but no digest component in the name
                 if ('app_param' in spec) and rng.random() < 0.3:
                     spec['bad_digest'] = True
                 elif ('app_param' in spec) and genuine and rng.random() < 0.3:
